@@ -389,6 +389,9 @@ class NetworkService(ModelElement):
             raise TopologyException(f'Interface {interface.name} is not connected to network service {self.name}')
 
         self.topo.graph_model.remove_cp_and_links(node_id=peers[0].node_id)
+        if interface.type == InterfaceType.ServicePort:
+            # the interface is the port of a service peering with this one: it exists only for that peering
+            self.topo.graph_model.remove_cp_and_links(node_id=interface.node_id)
         # bring the interface list up to date (interfaces may also have been connected through another handle)
         self._load_interfaces()
 
